@@ -396,7 +396,8 @@ const OPS: &[(&str, ir::IntrinsicOp)] = &[
 pub const PRELUDE: &str = "enum E0 { E0A = 0, E0B = 1, E0C = 5, E0D = -1, E0M = 2147483647 };\n\
 enum E1 { E1A = 1, E1B = 32, E1M = 4294967295u };\n\
 static const int gI = 7;\nstatic int gN = 7;\n\
-namespace NS { static const int nI = 3; static const uint nU = 4u; enum EN { EN0, EN1, EN2 }; }\n";
+namespace NS { static const int nI = 3; static const uint nU = 4u; enum EN { EN0, EN1, EN2 }; }\n\
+cbuffer CB0 { int cbM; }\nstruct GSt { int x; };\nstatic const GSt gS = { 3 };\nstatic const int gA[2] = { 1, 2 };\n";
 
 fn type_of_t(module: &mut ir::Module, t: &T) -> ir::TypeId {
     let sc = |m: &mut ir::Module, s| m.type_registry.register_type(ir::TypeLayer::Scalar(s));
@@ -1553,7 +1554,8 @@ const SRC_ATOMS: &[(&str, &[&str])] = &[
               "18446744073709551615", "0x7fffffff", "0xFFFFFFFC", "017"]),
     ("int", &["(int)0", "(int)1", "(int)-1", "(int)31", "(int)32", "(int)2147483647",
               "(int)-2147483648", "(int)46341", "gI", "(int)0xffffffff", "(int)5", "(int)2", "(int)4", "(int)255",
-              "(int)256", "NS::nI", "gN", "min(1, 2)", "(true ? 1 : 2)", "int(3)", "int2(1, 2).x"]),
+              "(int)256", "NS::nI", "gN", "min(1, 2)", "(true ? 1 : 2)", "int(3)", "int2(1, 2).x", "cbM", "gS.x", "gA[1]",
+              "(1, 2)"]),
     ("uint", &["0u", "1u", "2u", "31u", "32u", "33u", "2147483647u", "2147483648u", "4294967295u",
                "65536u", "(uint)-1", "3u", "4u", "5u", "255u", "256u", "sizeof(int)", "sizeof(half)", "sizeof(double)",
                "sizeof(E1)", "sizeof(bool)", "sizeof(float4)", "NS::nU"]),
